@@ -270,6 +270,20 @@ class World(object):
                         break
         return out
 
+    def format_all(self):
+        """str() of the controller, of every socket and of every queued PDU must not raise"""
+        out = []
+        objs = [("llc", self.llc)] + sorted(self.socks.items())
+        for name, s in sorted(self.socks.items()):
+            objs += [(name + ".recv_queue", q) for q in s.recv_queue] + [(name + ".send_queue", q) for q in s.send_queue]
+        for name, o in objs:
+            try:
+                str(o)
+                repr(o)
+            except Exception as e:  # noqa
+                out.append((name, exc_name(e)))
+        return out
+
     def close(self):
         uninstall()
 
